@@ -126,18 +126,34 @@ def op_programs():
     return progs
 
 
-def run_ops(rng, stats, vs):
+def const_programs():
+    """constant parameters given as a constant column / constant expression instead of a literal"""
+    progs = []
+    for name, op in U.operators():
+        if name in U.SKIP_OPS or U.is_marker(op):
+            continue
+        for si, args in U.const_variants(op):
+            progs.append((name, si, args))
+    return progs
+
+
+def run_ops(rng, stats, vs, const=False, reverse=False, digests=None):
+    """``reverse``: the backends are visited in the opposite order (the text compiled for one
+    dialect must not depend on which dialect compiled the operator first in this process);
+    ``digests`` collects a hash of every compiled text"""
     from pydiverse.transform._internal.ops import ops as _ops
 
     w = U.world()
     built = {"polars": W.build(w, "polars"), "sqlite": W.build(w, "sqlite")}
     built.update({d: D.build(w, d) for d in DIALECTS})
+    if reverse:
+        built = dict(reversed(list(built.items())))
     try:
-        for name, si, args in op_programs()[rng[0]:rng[1]]:
+        for name, si, args in (const_programs() if const else op_programs())[rng[0]:rng[1]]:
             op = getattr(_ops, name)
             label = f"{name}({U.describe_args(args)})"
             for b, bl in built.items():
-                tbl = bl.tables["T"]
+                tbl = U.const_table(bl.tables["T"]) if const else bl.tables["T"]
                 try:
                     expr = U.build(op, args, tbl)
                 except Exception:  # noqa: BLE001
@@ -156,6 +172,9 @@ def run_ops(rng, stats, vs):
                             else:
                                 q = t2 >> pdt.build_query()
                                 check_compiled(q, b, f"{cx}:{label}", vs)
+                            if digests is not None and b != "polars":
+                                q = t2 >> pdt.build_query()
+                                digests[f"{b}|ops:{cx}:{label}"] = hashlib.sha1(q.encode()).hexdigest()[:16]
                         stats[f"{b}:implemented"] += 1
                         stats["traces_validated"] += 1
                     except Exception as e:  # noqa: BLE001
@@ -291,14 +310,20 @@ def tasks(tier):
     np_ = len(op_programs())
     for i in range(0, np_, 80):
         out.append({"part": "ops", "range": [i, min(np_, i + 80)]})
+    # the same programs in other processes with the backends visited in the opposite order
+    out.append({"part": "ops", "range": [0, np_], "hashseed": HASHSEEDS[0], "reverse": True})
+    nc = len(const_programs())
+    for i in range(0, nc, 80):
+        out.append({"part": "constargs", "range": [i, min(nc, i + 80)]})
     return out
 
 
 def run_task(task, tier):
-    if task["part"] in ("ops", "duration", "nonstrict"):
+    if task["part"] in ("ops", "constargs", "duration", "nonstrict"):
         stats, vs = Counter(), []
-        if task["part"] == "ops":
-            run_ops(task["range"], stats, vs)
+        dig = {}
+        if task["part"] in ("ops", "constargs"):
+            run_ops(task["range"], stats, vs, const=task["part"] == "constargs", reverse=bool(task.get("reverse")), digests=dig)
         elif task["part"] == "nonstrict":
             run_nonstrict(stats, vs)
         else:
@@ -309,7 +334,9 @@ def run_task(task, tier):
                 merged[v["class"]]["count"] += 1
             else:
                 merged[v["class"]] = v
-        return {"stats": dict(stats), "outcomes": {k: v for k, v in stats.items() if ":" in k}, "levels": {}, "violations": list(merged.values()), "samples": []}
+        run = f"seed{task['hashseed']}" if "hashseed" in task else "main"
+        return {"stats": dict(stats), "outcomes": {k: v for k, v in stats.items() if ":" in k}, "levels": {}, "violations": [] if task.get("reverse") else list(merged.values()),
+                "samples": [], "digests": {run: dig}}
     w = worlds(tier)[task["world"]]
     holder = {}
 
@@ -335,7 +362,11 @@ def finalize(total, tier, seed):
         for key, h in d.items():
             if key in main:
                 n += 1
-                if main[key] != h:
+                if main[key] != h and "|ops:" in key:
+                    dialect, label = key.split("|ops:", 1)
+                    vs.append(mk("same-text-in-every-process", dialect, label, f"differs-in:{run}(reverse backend order)", {"main": main[key], run: h}))
+                    vs[-1]["params"] = {"part": "digest", "ops_key": key, "run": run}
+                elif main[key] != h:
                     dialect, hist = key.split("|", 1)
                     vs.append({"invariant": "same-text-in-every-process", "backend": dialect, "symptom": f"differs-in:{run}", "world": {"tables": {}},
                                "history": [["source", "T"]] + json.loads(hist), "detail": {"main": main[key], run: h},
@@ -357,11 +388,29 @@ def recheck(rec):
         return [v for v in vs if v["class"] == rec["class"]]
     if p.get("part") == "ops":
         stats, vs = Counter(), []
-        progs = op_programs()
+        const = "ccol:" in p["label"] or "cexpr:" in p["label"]
+        progs = const_programs() if const else op_programs()
         for i, (name, si, args) in enumerate(progs):
             if p["label"].endswith(f"{name}({U.describe_args(args)})"):
-                run_ops([i, i + 1], stats, vs)
+                run_ops([i, i + 1], stats, vs, const=const)
         return [v for v in vs if v["class"] == rec["class"]]
+    if p.get("part") == "digest" and p.get("ops_key"):
+        # two fresh interpreter processes: backends visited in the usual and in the opposite order
+        from ..engine import run_subtask
+
+        dialect, label = p["ops_key"].split("|ops:", 1)
+        progs = op_programs()
+        idx = next((i for i, (name, si, args) in enumerate(progs) if label.endswith(f":{name}({U.describe_args(args)})")), None)
+        if idx is None:
+            return []
+        a = run_subtask("C19", "quick", {"part": "ops", "range": [idx, idx + 1], "hashseed": 0})
+        b = run_subtask("C19", "quick", {"part": "ops", "range": [idx, idx + 1], "hashseed": HASHSEEDS[0], "reverse": True})
+        ha = (a.get("digests") or {}).get("seed0", {}).get(p["ops_key"])
+        hb = (b.get("digests") or {}).get(f"seed{HASHSEEDS[0]}", {}).get(p["ops_key"])
+        if ha is not None and hb is not None and ha != hb:
+            v = mk("same-text-in-every-process", dialect, label, f"differs-in:{p['run']}(reverse backend order)", {"usual": ha, "reverse": hb})
+            return [v]
+        return []
     if p.get("part") == "digest":
         return []
     return base.recheck_history(lambda ww: make_explorer(ww, p.get("depth", 3)), rec)
@@ -377,6 +426,8 @@ def describe(tier):
                             f"same text in {len(HASHSEEDS)} other processes with different PYTHONHASHSEED (histories of depth <= {DIGEST_DEPTH})"]},
         "ops": {"programs": len(op_programs()), "backends": ["polars (export)", "sqlite (export)", "postgres (compile)", "mssql (compile)"],
                 "contexts": "mutate; summarize additionally for aggregates", "invariant": "executes / compiles (not to a bare NULL), or raises NotSupportedError",
+                "order_independence": "the text of every (program, dialect) is compared with the text compiled in another process that visits the backends in the opposite order",
+                "constargs": f"{len(const_programs())} programs in which one constant parameter is given as a constant column or a constant expression instead of a literal",
                 "duration": "12 programs over Duration / Datetime columns compiled on PostgreSQL and SQL Server and exported on polars",
                 "nonstrict": "14 (source, target) pairs x 2 shapes with cast(..., strict=False) on all four backends (values not compared)"},
         "regime": "tree + exhaustive operator sweep",
